@@ -101,6 +101,11 @@ def run_k(ctx, kres):
             if r2.mism and in_projection(parse_mismatch(r2.mism[0])):
                 v.replay_text = cut.ops
         viols.append(v)
+    # --- K03c the shape of the session table ---
+    from .. import gen2
+    st, nst = gen2.c03_session_table(ctx.seed, 4, sample=500 if ctx.quick else None)
+    kres["notes"].append(f"K03c: {nst} orders of opens / closes on two tokens (holes and foreign sessions in the session table), each followed by the login rules through every session")
+    viols += k_suite(ctx, kres, "K03c-session-table", [Trace("session-table", st)], in_projection, sig_of=sig_of, shrink_budget=60)
     # --- K03b random histories ---
     n, ops = (30, 40) if ctx.quick else (400, 120)
     hs = [Trace("h%d" % i, gen.spine_history(ctx.seed * 7919 + i, ops, probe_every=False).replace("fini\n", "") + "".join(f"sinfo {k}\n" for k in range(1, 30)) + "fini\n") for i in range(n)]
